@@ -56,6 +56,34 @@ CHECKS["C20"] = dict(
     note=("Trusted: Coq kernel; regex translator tools/translate_faults.py (table re-validated by the exhaustive replay); "
           "process/filesystem behaviour is observed, not modelled; unreadable files are produced with chmod 000 under uid 65534."),
     technique="Coq proof over a finite fault table regenerated from source + exhaustive replay against the binaries")
+CHECKS["C01"] = dict(
+    category="translation_validation",
+    text=("Triangle is not modelled. Every mesh the real fmesher produces for generated problems (all three file types; nested "
+          "polygons, circles/arcs, holes, multiply connected regions; mesh sizes, min angles 1-33, smart mesh on/off) is "
+          "evaluated by a validator written in Coq with exact integer arithmetic (indices, CCW, each directed edge once, "
+          "every drawn point an exact vertex, every drawn entity a chain of mesh edges, every boundary edge on a drawn "
+          "entity, region attributes constant across non-entity edges, labels located, holes empty, edge markers). Proved in "
+          "Coq for all meshes: the discrete Green identity (sum of element areas = shoelace of the boundary for edge-manifold "
+          "meshes), soundness of the edge-table manifold check and what an accepted report establishes. Corrupted copies of a "
+          "mesh must be rejected on every run (negative controls)."),
+    design_ref="DESIGN.md §5 C01",
+    note=("Trusted: Coq kernel (vm_compute evaluates the validator), exact dyadic scaling in tools/meshlib.py, .poly written by "
+          "fmesher --write-poly as the PSLG given to Triangle (its relation to the drawing is C18's Discretize model). The "
+          "chain/attribute/label checks are executed but their soundness lemmas are not all proved; the final Jordan-curve "
+          "step from these facts to 'covers exactly the domain' is argued in prose."),
+    technique="verified result checker (Coq, exact arithmetic) run on every produced mesh + Coq proof of its core soundness")
+CHECKS["C12"] = dict(
+    category="proof",
+    text=("Coq theorems over a model of the three post-processors' point location and interpolation: the spiral search "
+          "visits every element for every mesh size and seed (found/not-found independent of query history), sound and complete "
+          "w.r.t. the triangle test, bounding circle contains the triangle, test iff barycentric, exact location on the reals, "
+          "interpolant nodal/affine/continuous across edges, field = gradient/curl, shared-edge gap-freeness on binary64 for the "
+          "index-ordered test. Model reproduces the real ElectrostaticsPostProcessor/HPProc/FPProc bit for bit on query "
+          "sequences; independent exact-rational oracle."),
+    design_ref="DESIGN.md §5 C12",
+    note=("Trusted: Coq kernel, Reals axioms, FloatAxioms.ltb_spec for the binary64 lemma; hand-written model tied to the code by "
+          "query-sequence correspondence; smoothing ON, nonlinear heat conductivity and axisymmetric magnetics not modelled."),
+    technique="Coq proof (search completeness by arithmetic on indices, geometry on reals, float lemma) + bit-exact query correspondence")
 PENDING = {}
 def main():
     props = [json.loads(l) for l in open(os.path.join(V, "properties.jsonl"))]
